@@ -165,6 +165,23 @@ class Runner:
                     k -= 1
                     if k <= 0:
                         break
+        elif o[0] == "b":
+            # a `for` loop over the schedule that is left with break after k actions (wherever that is)
+            k = int(o[1:])
+            if type(s).__name__ == "MixedCheckpointSchedule":
+                mixed_mod.numba = getattr(s, "_verif_numba", mixed_mod.numba)
+            try:
+                with contextlib.redirect_stdout(io.StringIO()):
+                    if k > 0:
+                        for a in s:
+                            self.record(a)
+                            k -= 1
+                            if k <= 0:
+                                break
+                        else:
+                            out.append("N STOP | " + canon.obs2s(s, StorageType))
+            except Exception as e:  # noqa
+                out.append("N EXC:" + type(e).__name__ + " | " + canon.obs2s(s, StorageType))
         elif o[0] in "lL":
             # the documented way of driving a schedule: `for action in schedule: ...; break` at EndReverse, k times
             k, lim = o[1:].split(":")
